@@ -74,7 +74,7 @@ func ruleVisitorCompleteness(r *Report, rule string) {
 				}
 				for i, l := range as.Lhs {
 					obj := objOf(info, l)
-					if obj == nil || (obj.Pos() >= lit.Pos() && obj.Pos() <= lit.End()) {
+					if obj == nil || declaredWithin(info, lit, obj) {
 						continue
 					}
 					assigned[obj] = true
